@@ -33,6 +33,13 @@ Theorem C16_wrap_table_sound : forall K t,
 Proof. exact wrap_table_sound. Qed.
 Print Assumptions C16_wrap_table_sound.
 
+(** pthread_yield: wrapped only where it still is a function (see WrapSpec.optional_subset); then like sched_yield *)
+Theorem C16_wrap_table_optional : forall K t,
+  wrap_table_ok K t = true ->
+  forall o, In o optional_subset -> find_entry (o_name o) t = None \/ forwards K t o.
+Proof. exact wrap_table_optional. Qed.
+Print Assumptions C16_wrap_table_optional.
+
 Theorem C16_wrap_table_init_first : forall K t,
   wrap_table_ok K t = true ->
   forall o, In o posix_subset -> In (o_name o) mutex_first_use ->
@@ -69,6 +76,21 @@ Theorem C16_sizes_sound : forall sizes,
   forall n, In n overlaid_types -> exists a b, find_size n sizes = Some (a, b) /\ (0 < a <= b)%Z.
 Proof. exact sizes_sound. Qed.
 Print Assumptions C16_sizes_sound.
+
+(** pthread_cond_timedwait (body = assert(0)) and the other wrapped-but-unsupported entry points are declared
+    outside the subset; the table's rows for them carry no claim *)
+Example C16_outside_subset_disjoint :
+  subset_disjoint_outside = true /\
+  existsb (fun p => String.eqb (fst p) "pthread_cond_timedwait") outside_subset = true /\
+  existsb (fun o => String.eqb (o_name o) "pthread_yield") optional_subset = true.
+Proof. vm_compute. repeat split; reflexivity. Qed.
+
+Example C16_optional_checked :
+  let py := mk "pthread_yield" 0 "myth_yield_body" [] None RDirect in
+  wrap_table_ok K0 (good_table ++ [good_entry py]) = true /\
+  wrap_table_ok K0 (good_table ++ [set_wrapped [SCall "myth_usleep_body" []] (good_entry py)]) = false /\
+  find_entry "pthread_yield" table = None.
+Proof. vm_compute. repeat split; reflexivity. Qed.
 
 (** non-vacuity: the pinned tree's table (97 wrappers) is accepted; ten realistic mutants are rejected,
     reordering is accepted *)
